@@ -393,7 +393,7 @@ Definition eff2 (s s' : st) : Prop :=
   (pending s = [] /\ s' = s) \/
   exists f r app newt, pending s = f :: r /\ pending s' = r ++ app /\ ~ In FStop app /\ nstart app = 0%nat /\
     (count_rc app <> 0%nat -> f = FStop /\ nretry s = 0%nat) /\
-    timers s' = timers s ++ newt /\ newretry (now s) newt /\ now s' = now s /\ alive s' = alive s.
+    timers s' = timers s ++ newt /\ newretry (now s) newt /\ now s' = now s /\ alive s' = alive s /\ (k_dead s' = false -> k_dead s = false).
 
 Lemma teff_eff2 s f r s0 s1 s' : 500 <= k_delay s -> pending s = f :: r -> tsame s (set_pending s0 (pending s)) -> pending s0 = r ->
   teff s0 s1 -> tsame' s1 s' -> eff2 s s'.
@@ -401,7 +401,8 @@ Proof.
   intros D Hp (A & B & C & D0 & E & _) Hr (A1 & A2 & A3 & A4 & (app & A5 & A6)) (B1 & B2 & B3 & B4 & B5 & B6). cbn in *.
   rewrite D0 in A4. destruct (A4 D) as (_ & newt & Ht & Hn). destruct (has_k_false_parts _ A6) as (P1 & P2 & P3).
   right. exists f, r, app, newt. split; [exact Hp|]. split; [rewrite B5, A5, Hr; auto|]. split; [auto|]. split; [auto|].
-  split; [intros Z; congruence|]. split; [rewrite B4, Ht, E; auto|]. split; [rewrite <- A; auto|]. split; congruence.
+  split; [intros Z; congruence|]. split; [rewrite B4, Ht, E; auto|]. split; [rewrite <- A; auto|]. split; [congruence|]. split; [congruence|].
+  intros Z. rewrite <- C, <- A3. auto.
 Qed.
 
 Lemma run_one_T s q s' ev : Inv s -> Tinv s q -> run_one s = Some (s', ev) -> Tinv s' q /\ eff2 s s'.
@@ -438,7 +439,8 @@ Proof.
            right. exists FStop, r, (FResetChannel :: app), newt.
            split; [exact Hp|]. split; [rewrite B5, R5; reflexivity|]. split; [intros [E|E]; [discriminate|tauto]|].
            split; [rewrite nstart_cons; cbn; auto|]. split; [intros _; split; auto|].
-           split; [rewrite B4, Ht; reflexivity|]. split; [exact Hn|]. split; [rewrite B1, R1; reflexivity|rewrite B2, R2; reflexivity].
+           split; [rewrite B4, Ht; reflexivity|]. split; [exact Hn|]. split; [rewrite B1, R1; reflexivity|]. split; [rewrite B2, R2; reflexivity|].
+           intros Z. specialize (B6 Z). rewrite R3 in B6. exact B6.
       * unfold stopInLoop in H. rewrite Es in H. apply (G _ H). apply teff_refl.
     + destruct (k_dead s0); [discriminate|]. apply (G _ H). ts.
     + destruct (nth_error (conns s0) c) as [o|]; [|discriminate]. destruct (c_live (cst o)); apply (G _ H); ts.
@@ -455,7 +457,7 @@ Qed.
 Definition batchfacts (n : nat) (s s1 : st) : Prop :=
   exists apps newt, pending s1 = skipn n (pending s) ++ apps /\ ~ In FStop apps /\ nstart apps = 0%nat /\
     (count_rc apps <> 0%nat -> In FStop (firstn n (pending s)) /\ nretry s = 0%nat) /\
-    timers s1 = timers s ++ newt /\ newretry (now s) newt /\ now s1 = now s /\ alive s1 = alive s.
+    timers s1 = timers s ++ newt /\ newretry (now s) newt /\ now s1 = now s /\ alive s1 = alive s /\ (k_dead s1 = false -> k_dead s = false).
 
 Lemma nretry_app s s' newt : timers s' = timers s ++ newt -> (nretry s <= nretry s')%nat.
 Proof. unfold nretry. intros ->. rewrite filter_app, app_length. lia. Qed.
@@ -466,14 +468,14 @@ Proof.
   induction n as [|n IH]; intros s q s1 ev I T Hn; cbn [run_n].
   - intros [= <- _]. split; auto. split; auto. exists [], []. rewrite !app_nil_r. cbn [skipn firstn].
     split; [reflexivity|]. split; [tauto|]. split; [reflexivity|]. split; [intros Z; exfalso; apply Z; reflexivity|].
-    split; [reflexivity|]. split; [intros t []|]. split; reflexivity.
+    split; [reflexivity|]. split; [intros t []|]. split; [reflexivity|]. split; [reflexivity|auto].
   - pose proof (run_one_I s I) as W. unfold bind. destruct (run_one s) as [[s2 e2]|] eqn:E; [|discriminate]. cbn in W.
     destruct (run_n n s2) as [[s3 e3]|] eqn:E2; [|discriminate]. intros [= <- _].
     destruct (run_one_T _ _ _ _ I T E) as [T2 F2].
-    destruct F2 as [[Hp ->]|(f & r & app & newt & Hp & Hp2 & F1 & F2 & F3 & F4 & F5 & F6 & F7)].
+    destruct F2 as [[Hp ->]|(f & r & app & newt & Hp & Hp2 & F1 & F2 & F3 & F4 & F5 & F6 & F7 & F8)].
     + rewrite Hp in Hn. cbn in Hn. lia.
     + rewrite Hp in Hn. cbn in Hn. assert (Hn2 : (n <= length r)%nat) by lia.
-      destruct (IH s2 q s3 e3 W T2 ltac:(rewrite Hp2, app_length; lia) E2) as (I3 & T3 & (apps & newt2 & B1 & B2 & B3 & B4 & B5 & B6 & B7 & B8)).
+      destruct (IH s2 q s3 e3 W T2 ltac:(rewrite Hp2, app_length; lia) E2) as (I3 & T3 & (apps & newt2 & B1 & B2 & B3 & B4 & B5 & B6 & B7 & B8 & B9)).
       split; auto. split; auto. exists (app ++ apps), (newt ++ newt2). rewrite Hp. cbn [skipn firstn].
       rewrite Hp2, skipn_app in B1. replace (n - length r)%nat with 0%nat in B1 by lia. cbn [skipn] in B1.
       split; [rewrite B1, <- app_assoc; reflexivity|].
@@ -486,14 +488,14 @@ Proof.
            ++ pose proof (nretry_app _ _ _ F4). lia.
         -- destruct (F3 ltac:(congruence)) as [-> Hr]. split; auto. left. reflexivity.
       * split; [rewrite B5, F4, <- app_assoc; reflexivity|].
-        split; [|split; congruence].
+        split; [|split; [congruence|split; [congruence|auto]]].
         intros t Hi. apply in_app_or in Hi. destruct Hi as [Hi|Hi]; auto. rewrite F6 in B6. auto.
 Qed.
 
 Lemma batch_Tinv s q s1 : Inv s -> Tinv s q -> Tinv s1 q -> batchfacts (length (pending s)) s s1 ->
-  (k_dead s1 = false -> k_dead s = false) -> (pending s <> [] -> now s - q <= Bq) -> Tinv s1 (now s).
+  (pending s <> [] -> now s - q <= Bq) -> Tinv s1 (now s).
 Proof.
-  intros I T [Td Ts Tr Te Ta Tb] (apps & newt & B1 & B2 & B3 & B4 & B5 & B6 & B7 & B8) Hkd Hlive.
+  intros I T [Td Ts Tr Te Ta Tb] (apps & newt & B1 & B2 & B3 & B4 & B5 & B6 & B7 & B8 & Hkd) Hlive.
   rewrite skipn_all, firstn_all in *. cbn [app] in B1.
   assert (Hold : forall d k, In (d, k) (timers s1) -> In (d, k) (timers s) \/ (k = TRetry /\ now s + 500 <= d)).
   { intros d k Hi. rewrite B5 in Hi. apply in_app_or in Hi. destruct Hi as [Hi|Hi]; auto. right. destruct (B6 _ Hi). auto. }
@@ -573,20 +575,21 @@ Proof.
       assert (Hk1 : has_k (pending s1) = false) by (rewrite Pp, has_k_app, Hk, Hka; reflexivity).
       destruct (has_k_false_parts _ Hk1) as (R1 & R2 & R3).
       assert (Q : qnext q s s1 Destroy = q \/ (pending s = [] /\ qnext q s s1 Destroy <= now s1)) by (apply qnext_ok; auto; lia).
-      split; try lia; try congruence.
-      * destruct Q as [->|[_ ?]]; lia.
-      * intros _ _ [Z|Z]; tauto.
+      split; try lia; try congruence; try (destruct Q as [->|[_ ?]]; lia); try (intros _ _ [Z|Z]; tauto).
     + injection H as <- _.
-      match goal with |- Tinv ?S _ => assert (Q : qnext q s S Destroy = q \/ (pending s = [] /\ qnext q s S Destroy <= now S)) by (apply qnext_ok; auto; cbn; lia) end.
-      cbn in Q. split; cbn; auto.
-      * destruct Q as [Q|[_ Q]]; cbn in Q; lia.
+      match goal with |- Tinv ?S _ => set (S1 := S); set (q1 := qnext q s S1 Destroy) end.
+      assert (Q : q1 = q \/ (pending s = [] /\ q1 <= now s)).
+      { destruct (qnext_ok q s S1 Destroy eq_refl) as [E|[E1 E2]]; [subst S1; cbn; lia|left; exact E|right; split; [exact E1|exact E2]]. }
+      clearbody q1. subst S1. split; cbn.
+      * exact Td.
+      * destruct Q as [->|[_ Q]]; lia.
       * rewrite count_rc_snoc. cbn. rewrite Nat.add_0_r. intros Z d Hi. apply in_app_or in Hi. destruct Hi as [Hi|[Hi|[]]]; [|discriminate].
-        destruct Q as [Q|[Hp _]]; [cbn in Q; rewrite Q; auto|]. rewrite Hp in Z. cbn in Z. congruence.
+        destruct Q as [->|[Hp _]]; [auto|]. rewrite Hp in Z. exfalso. apply Z. reflexivity.
       * intros _ _ _. exists (now s + 1000). apply in_or_app. right. left. reflexivity.
       * intros _ _ _ d Hi. apply in_app_or in Hi. destruct Hi as [Hi|[Hi|[]]]; [destruct (NoHack _ Hi)|]. injection Hi as <-.
-        destruct Q as [Q|[_ Q]]; cbn in Q; lia.
+        destruct Q as [->|[_ Q]]; lia.
       * intros _ _ _ d Hi. apply in_app_or in Hi. destruct Hi as [Hi|[Hi|[]]]; [destruct (NoHack _ Hi)|]. injection Hi as <-.
-        destruct Q as [Q|[_ Q]]; cbn in Q; unfold Bq; lia.
+        destruct Q as [->|[_ Q]]; unfold Bq; lia.
   - destruct (_ || _); [discriminate|]. apply some_inj in H. eapply (TE (set_xc (set_k_connect (set_c_connect s true) true) true)); [unfold tsame; cbn; auto 10|exact H|apply teff_refl|reflexivity].
   - (* XConnectEnq *) destruct (negb (user_api_ok s) || negb (xc s)) eqn:U; [discriminate|]. apply orb_false_elim in U. destruct U as [U _].
     apply negb_false_true in U. destruct (api_ok _ U) as [Al _]. injection H as <- _. apply (Tinv_alive s q); auto; try (apply qnext_ok; auto; cbn; lia); cbn; auto.
@@ -620,38 +623,111 @@ Proof.
     assert (Tm : timely s = true) by (apply (live_timely s q); auto; congruence).
     unfold timely in Tm. apply andb_prop in Tm. destruct Tm as [Tm1 _].
     assert (Hrc : count_rc (pending s) = 0%nat) by (apply existsb_count_rc; destruct (existsb is_FReset (pending s)); auto; discriminate).
-    pose proof (fire_all_teff _ s0) as F. rewrite H in F. cbn in F.
+    match type of H with fire_all ?l _ = _ => pose proof (fire_all_teff l s0) as F end. rewrite H in F. cbn in F.
     destruct T as [Td Ts Tr Te Ta Tb].
+    assert (N1 : now s1 = now') by (destruct F as (N & _); rewrite N; reflexivity).
+    assert (Cs : (pending s = [] /\ qnext q s s1 TimerFire = now') \/
+                 (pending s <> [] /\ qnext q s s1 TimerFire = q /\ now' = now s /\ now s - q <= Bq)).
+    { unfold qnext. cbn [is_RunPending]. rewrite N1. cbn in L. unfold live in L. destruct (pending s); [left; auto|right].
+      rewrite Em in L. apply andb_prop in L. destruct L as [L1 L2]. apply Z.leb_le in L1. apply Z.leb_le in L2.
+      split; [discriminate|]. split; auto. split; auto. unfold now'. lia. }
     assert (T0 : Tinv s0 (qnext q s s1 TimerFire)).
-    { assert (N1 : now s1 = now') by (destruct F as (N & _); rewrite N; reflexivity).
-      unfold qnext. cbn [is_RunPending]. rewrite N1. cbn in L. unfold live in L.
-      destruct (pending s) as [|f r] eqn:Hp.
-      - split; cbn; rewrite ?Hp; cbn; auto; try lia; try congruence. intros _ _ [[]|Z]; congruence.
-      - rewrite Em in L. apply andb_prop in L. destruct L as [L1 L2]. apply Z.leb_le in L1. apply Z.leb_le in L2.
-        assert (Nn : now' = now s) by (unfold now'; lia).
-        split; cbn; rewrite ?Hp; auto; try lia.
-        + rewrite <- Hp, Hrc. congruence.
-        + intros A D Hk. rewrite <- Hp in *. destruct (Te A D Hk) as (d & Hi). exists d. apply filter_In. split; auto. cbn.
-          apply Z.ltb_lt. destruct (has_k_cases _ Hk) as [P|[P|P]]; [| |congruence].
-          * pose proof (Ta A D (or_introl P) _ Hi). unfold Bq in *. lia.
-          * pose proof (Ta A D (or_intror P) _ Hi). unfold Bq in *. lia.
-        + intros A D P d Hi. apply filter_In in Hi. destruct Hi as [Hi _]. rewrite <- Hp in *. apply (Ta A D P _ Hi).
-        + intros A D P d Hi. apply filter_In in Hi. destruct Hi as [Hi _]. rewrite <- Hp in *. apply (Tb A D P _ Hi). }
+    { destruct Cs as [[Hp ->]|(Hp & -> & Nn & Lq)]; split; cbn.
+      - exact Td.
+      - lia.
+      - rewrite Hp. intros Z. exfalso. apply Z. reflexivity.
+      - rewrite Hp. intros _ _ Z. discriminate Z.
+      - rewrite Hp. intros _ _ [[]|Z]. exfalso. apply Z. reflexivity.
+      - rewrite Hp. intros _ _ Z. exfalso. apply Z. reflexivity.
+      - exact Td.
+      - lia.
+      - rewrite Hrc. intros Z. exfalso. apply Z. reflexivity.
+      - intros A D Hk. destruct (Te A D Hk) as (d & Hi). exists d. apply filter_In. split; auto. cbn.
+        apply Z.ltb_lt. destruct (has_k_cases _ Hk) as [P|[P|P]]; [| |congruence].
+        + pose proof (Ta A D (or_introl P) _ Hi). unfold Bq in *. lia.
+        + pose proof (Ta A D (or_intror P) _ Hi). unfold Bq in *. lia.
+      - intros A D P d Hi. apply filter_In in Hi. destruct Hi as [Hi _]. apply (Ta A D P _ Hi).
+      - intros A D P d Hi. apply filter_In in Hi. destruct Hi as [Hi _]. apply (Tb A D P _ Hi). }
     eapply teff_Tinv; eauto.
   - (* RunPending *)
-    apply some_inj in H. apply bind_some_inv' in H. destruct H as (rest & H & _).
-    destruct (run_n (length (pending s)) s) as [[s2 e2]|] eqn:E; [|discriminate]. cbn in H. injection H as <- _.
+    apply some_inj in H. unfold bind in H. destruct (run_n (length (pending s)) s) as [[s2 e2]|] eqn:E; [|discriminate]. cbn in H. injection H as <- _.
     destruct (run_n_T _ _ _ _ _ I T (Nat.le_refl _) E) as (I2 & T2 & BF).
-    assert (Hkd : k_dead s2 = false -> k_dead s = false).
-    { intros D. destruct (k_dead s) eqn:E0; auto. destruct K as [_ _ _ _ _ _ Kkd _ _ _]. destruct (Kkd E0) as (A & Tm & _ & _).
-      destruct BF as (apps & newt & _ & _ & _ & _ & B5 & B6 & _ & B8). destruct I2 as (_ & _ & St2 & _).
-      assert (timers s2 = []).
-      { rewrite B5, Tm. cbn. destruct newt as [|t r]; auto. exfalso. destruct (B6 t (or_introl eq_refl)) as [Rt _].
-        destruct I2 as (K2 & _). admit. }
-      rewrite (St2 ltac:(congruence) H) in D. discriminate. }
-    admit.
-  - admit.
-  - admit.
-  - admit.
-  - admit.
-Admitted.
+    assert (N2 : now s2 = now s) by (destruct BF as (apps & newt & _ & _ & _ & _ & _ & _ & B7 & _); exact B7).
+    assert (Hlive : pending s <> [] -> now s - q <= Bq).
+    { intros Hne. cbn in L. unfold live in L. destruct (pending s); [congruence|]. apply Z.leb_le in L. exact L. }
+    pose proof (batch_Tinv s q s2 I T T2 BF Hlive) as T3.
+    assert (Q : qnext q s (set_conns s2 (map (c_set_fresh false) (conns s2))) RunPending = now s) by (unfold qnext; cbn; rewrite N2; destruct (pending s); reflexivity).
+    rewrite Q. eapply teff_Tinv; [exact T3| |left; reflexivity]. ts.
+  - (* RunOne *)
+    destruct (pending s) eqn:Hp; [discriminate|]. apply some_inj in H. destruct (run_one_T _ _ _ _ I T H) as [T1 _].
+    unfold qnext. rewrite Hp. exact T1.
+  - (* Down *)
+    destruct (find_down _ _ _); [|discriminate]. apply some_inj in H. eapply (TE s); [exact TS0|exact H|apply handleClose_teff|reflexivity].
+  - destruct (negb (user_api_ok s)); [discriminate|]. destruct (connection s); [|discriminate]. destruct (find_user _ _); [discriminate|].
+    apply some_inj in H. eapply (TE (setc s n (c_set_user 1%nat))); [unfold tsame; cbn; auto 10|exact H|apply teff_refl|reflexivity].
+  - destruct (find_user _ _) as [c|]; [|discriminate]. destruct (nth_error _ _); [|discriminate]. destruct (_ && _); [discriminate|].
+    apply some_inj in H. eapply (TE (setc s c (c_set_user 0%nat))); [unfold tsame; cbn; auto 10|exact H|apply teff_refl|reflexivity].
+Qed.
+
+(* ------------------------------------------------------------------ along a history *)
+Lemma Tinv_step s q o s' ev : Inv s -> Tinv s q -> lcontract q s o = true -> step s o = Ok s' ev -> Tinv s' (since_next q s s' o).
+Proof.
+  intros I T L. unfold step. destruct (step_core s o) as [m|] eqn:Hc; [|discriminate].
+  destruct (finish m) as [[s2 e2]|] eqn:F; [|discriminate]. intros [= <- _].
+  destruct (finish_t _ _ _ F) as (s1 & e1 & -> & TS).
+  pose proof (core_T _ _ _ _ _ I T L Hc) as T1.
+  assert (E : since_next q s (set_now s2 (now s2 + 1)) o = qnext q s s1 o).
+  { unfold since_next, qnext. cbn. destruct TS as (N & _). rewrite N. replace (now s1 + 1 - 1) with (now s1) by lia. reflexivity. }
+  rewrite E. assert (T2 : Tinv s2 (qnext q s s1 o)) by (eapply Tinv_tsame'; eauto).
+  eapply (Tinv_transfer s2 _ _ _ []); [exact T2| | | | | | | |left; reflexivity]; cbn; auto; try lia;
+    try apply T2; try (rewrite app_nil_r; auto); try (intros t []); try apply ksub_refl.
+Qed.
+
+Lemma Tinv_init : Tinv init 0.
+Proof.
+  split; cbn; try lia; try discriminate; try (rewrite G_init_delay; lia); try (intros Z; exfalso; apply Z; reflexivity);
+    try (intros _ _ [[]|Z]; exfalso; apply Z; reflexivity).
+Qed.
+
+(* a history that is admissible for the live loop is admissible in the sense of the theorems: `timely` is derived *)
+Lemma ladmissible_admissible l : forall s q, Inv s -> Tinv s q -> ladmissible q s l -> admissible s l.
+Proof.
+  induction l as [|o r IH]; intros s q I T A; cbn; auto. unfold admissible. cbn [ladmissible admissible_with] in *.
+  destruct (step s o) as [s1 e1| |] eqn:E.
+  - destruct A as [L A]. assert (Hc : contract s o = true).
+    { apply (lcontract_contract s q); auto. unfold step in E. destruct (step_core s o); congruence. }
+    split; auto. pose proof (step_I s o I Hc) as W. rewrite E in W.
+    apply (IH s1 (since_next q s s1 o)); auto. eapply Tinv_step; eauto.
+  - apply (IH s q); auto.
+  - apply (lcontract_contract s q); auto. unfold step in E. destruct (step_core s o); congruence.
+Qed.
+
+Theorem no_fault_live_loop : forall l, ladmissible 0 init l -> run init l <> None.
+Proof. intros l A. apply no_fault. eapply ladmissible_admissible; eauto using Inv_init, Tinv_init. Qed.
+
+(* states reached by histories of the live loop, with the time since which everything queued was queued *)
+Definition lreachable (s : st) (q : Z) : Prop := Inv s /\ Tinv s q.
+Theorem timely_derived : forall s q, lreachable s q -> min_due (timers s) <> None -> live q s true = true -> timely s = true.
+Proof. intros s q [I T]. apply live_timely; auto. Qed.
+
+(* ------------------------------------------------------------------ non-vacuity *)
+Fixpoint ladmissible_b (since : Z) (s : st) (l : list op) : bool :=
+  match l with
+  | [] => true
+  | o :: r =>
+      match step s o with
+      | Rejected => ladmissible_b since s r
+      | Fault => lcontract since s o
+      | Ok s' _ => lcontract since s o && ladmissible_b (since_next since s s' o) s' r
+      end
+  end.
+Lemma ladmissible_b_ok l : forall q s, ladmissible_b q s l = true -> ladmissible q s l.
+Proof.
+  induction l as [|o r IH]; intros q s; cbn [ladmissible_b ladmissible]; auto.
+  destruct (step s o) as [s' ev| |]; auto. intros H. apply andb_prop in H. destruct H. split; auto.
+Qed.
+Lemma live_loop_examples : ladmissible 0 init ex_backoff /\ ladmissible 0 init ex_retry_cycle /\ ladmissible 0 init ex_foreign.
+Proof. repeat split; apply ladmissible_b_ok; vm_compute; reflexivity. Qed.
+(* ... and the stalled loop is what it excludes *)
+Lemma stalled_not_live : ~ ladmissible 0 init [Destroy; TimerFire; RunPending] /\ ~ ladmissible 0 init [Connect; EvError; TimerFire].
+Proof. split; vm_compute; intuition congruence. Qed.
